@@ -2747,6 +2747,7 @@ class Network:
             subunits = network.units
             for index, i in enumerate(path_tuple):
                 if isa(i, Network) and not network.isdisjoint(i):
+                    self._remove_overlap(network, path_tuple)
                     i.join_recycle_network(network)
                     self.units.update(subunits)
                     return
